@@ -224,6 +224,7 @@ func (cfg *Config) applyJSONConfig(jcfg *jsonConfig) error {
 	cfg.CommitRetries = jcfg.CommitRetries
 	config.SetIfNotDefault(commitRetryDelay, &cfg.CommitRetryDelay)
 	config.SetIfNotDefault(jcfg.BackupsRotate, &cfg.BackupsRotate)
+	config.SetIfNotDefault(jcfg.DatastoreNamespace, &cfg.DatastoreNamespace)
 
 	// Raft values
 	config.SetIfNotDefault(heartbeatTimeout, &cfg.RaftConfig.HeartbeatTimeout)
